@@ -1,6 +1,512 @@
 # -*- coding: utf-8 -*-
-"""Contract level of the sparse kernels (L0).  Filled in later; see DESIGN 2.2 'Layering'."""
-import os
+"""
+L0 = contract level of the SparseVector kernels (DESIGN 2.2 "Layering").
 
-def install_if_requested():
+When VERIF_L0=contract (set per group via `l0=True`), the arithmetic kernels of
+thermosteam.base.sparse.SparseVector are rebound to *executable forms of their
+contracts* (dense image of the result = operator applied to the dense images of
+the operands, NumPy length-1 broadcasting, ValueError on shape mismatch, results
+keep rep_ok) and every `dct` becomes a LazyDct that realises
+
+        stored(k)  <=>  candidate value at k  !=  0
+
+lazily: arithmetic never forks on "did this entry cancel to zero"; presence is
+decided (one branch decision) only when code actually observes it (`in`,
+iteration, len, bool, del, [] without default).  The substitution is sound when
+the C09 kernel obligations (real kernel == this contract) are discharged; the
+native cross-check of every path runs the *real* kernels on floats.
+"""
+import os
+import sys
+
+from .sym import SymReal, SymBool, ctx, is_sym, EngineUnsupported
+
+_ZERO = (0, 0.0, False)
+
+
+def _is_zero_default(d):
+    return (d.__class__ in (int, float, bool)) and d == 0
+
+
+class LazyDct(dict):
+    """dict whose stored candidates may be symbolically zero; abstractly {k: v | v != 0}."""
+    __slots__ = ('_known',)
+
+    def __init__(self, src=None, known=True):
+        dict.__init__(self)
+        self._known = set()
+        if src is not None:
+            if isinstance(src, LazyDct):
+                for k in dict.keys(src):
+                    dict.__setitem__(self, k, dict.__getitem__(src, k))
+                self._known = set(src._known)
+            else:
+                for k, v in src.items():
+                    dict.__setitem__(self, k, v)
+                if known:
+                    self._known = set(dict.keys(self))
+
+    # -- engine-side access (never forks)
+    def peek(self, k):
+        return dict.get(self, k, 0.)
+
+    def put(self, k, v):
+        """Store a candidate (may be zero); presence stays undecided."""
+        if v.__class__ in (int, float) and v == 0:
+            self.drop(k)
+            return
+        dict.__setitem__(self, k, v)
+        self._known.discard(k)
+
+    def drop(self, k):
+        if dict.__contains__(self, k):
+            dict.__delitem__(self, k)
+        self._known.discard(k)
+
+    def candidates(self):
+        return list(dict.keys(self))
+
+    # -- presence
+    def _present(self, k):
+        if not dict.__contains__(self, k):
+            return False
+        if k in self._known:
+            return True
+        v = dict.__getitem__(self, k)
+        if isinstance(v, SymReal):
+            nz = bool(v)          # branch decision (memoised per path by the context)
+        else:
+            nz = bool(v)
+        if nz:
+            self._known.add(k)
+            return True
+        dict.__delitem__(self, k)
+        return False
+
+    # -- observed (code-side) interface
+    def __contains__(self, k):
+        try:
+            return self._present(k)
+        except TypeError:
+            return False
+
+    def __getitem__(self, k):
+        if self._present(k):
+            return dict.__getitem__(self, k)
+        raise KeyError(k)
+
+    def get(self, k, default=None):
+        if not dict.__contains__(self, k):
+            return default
+        if _is_zero_default(default) or k in self._known:
+            return dict.__getitem__(self, k)
+        return dict.__getitem__(self, k) if self._present(k) else default
+
+    def __setitem__(self, k, v):
+        # a real store makes the key present whatever the value (rep_ok is the caller's obligation)
+        dict.__setitem__(self, k, v)
+        self._known.add(k)
+
+    def __delitem__(self, k):
+        if self._present(k):
+            dict.__delitem__(self, k)
+            self._known.discard(k)
+        else:
+            raise KeyError(k)
+
+    def pop(self, k, *default):
+        if self._present(k):
+            v = dict.__getitem__(self, k)
+            dict.__delitem__(self, k)
+            self._known.discard(k)
+            return v
+        if default:
+            return default[0]
+        raise KeyError(k)
+
+    def __iter__(self):
+        for k in list(dict.keys(self)):
+            if self._present(k):
+                yield k
+
+    def keys(self):
+        return list(self.__iter__())
+
+    def values(self):
+        return [dict.__getitem__(self, k) for k in self.__iter__()]
+
+    def items(self):
+        return [(k, dict.__getitem__(self, k)) for k in self.__iter__()]
+
+    def __len__(self):
+        return sum(1 for _ in self.__iter__())
+
+    def __bool__(self):
+        for _ in self.__iter__():
+            return True
+        return False
+
+    def clear(self):
+        dict.clear(self)
+        self._known.clear()
+
+    def copy(self):
+        return LazyDct(self)
+
+    def update(self, other=(), **kw):
+        if isinstance(other, LazyDct):
+            for k in dict.keys(other):
+                v = dict.__getitem__(other, k)
+                if k in other._known:
+                    self[k] = v
+                else:
+                    # candidate of unknown presence: if it is zero the old entry (if any) must survive
+                    if dict.__contains__(self, k):
+                        if other._present(k):
+                            self[k] = v
+                    else:
+                        self.put(k, v)
+        elif hasattr(other, 'items'):
+            for k, v in other.items(): self[k] = v
+        else:
+            for k, v in other: self[k] = v
+        for k, v in kw.items(): self[k] = v
+
+    def __eq__(self, other):
+        if not isinstance(other, dict):
+            return NotImplemented
+        ks = set(self.__iter__())
+        ko = set(other.__iter__()) if isinstance(other, LazyDct) else set(other.keys())
+        if ks != ko:
+            return False
+        for k in ks:
+            if not bool(dict.__getitem__(self, k) == (dict.__getitem__(other, k))):
+                return False
+        return True
+
+    def __ne__(self, other):
+        r = self.__eq__(other)
+        return r if r is NotImplemented else not r
+
+    __hash__ = None
+
+    def setdefault(self, *a):
+        raise EngineUnsupported('LazyDct.setdefault')
+
+    def popitem(self):
+        raise EngineUnsupported('LazyDct.popitem')
+
+    def __reduce__(self):
+        return (dict, (dict(self.items()),))
+
+    def __repr__(self):
+        return 'LazyDct(' + ', '.join(f'{k}: {dict.__getitem__(self, k)!r}' + ('' if k in self._known else '?')
+                                      for k in dict.keys(self)) + ')'
+
+
+# --------------------------------------------------------------------------- contract-level kernels
+
+def _lazy(sv):
+    d = sv.dct
+    if d.__class__ is not LazyDct:
+        if d.__class__ is dict:
+            d = LazyDct(d)
+            _slot_set(sv, d)
+        else:
+            return None       # DictionaryView etc.: not abstracted
+    return d
+
+
+def _getter(sv):
+    """k -> dense value of sv at k (0. when absent), never forking."""
+    d = _lazy(sv)
+    if d is None:
+        real = sv.dct
+        return (lambda k: real.get(k, 0.)), list(real.keys()), None
+    return d.peek, d.candidates(), d
+
+
+def _broadcast(self, other_size, other_is_sparse=True):
+    size = self.size
+    if size == other_size:
+        return size, 0
+    if size == 1 and other_size:
+        return other_size, 1           # self is broadcast
+    if other_is_sparse and other_size == 1:
+        return size, 2                 # other is broadcast
+    raise ValueError('shape mismatch between arrays')
+
+
+def _apply(op, a, b):
+    if op == 'add': return a + b
+    if op == 'sub': return a - b
+    if op == 'mul': return a * b
+    if op == 'truediv': return a / b
+    raise AssertionError(op)
+
+
+def _keys_for(op, n, mode, ka, kb):
+    """Positions whose result can be non-zero."""
+    if mode == 1:
+        ka = range(n) if ka else ()
+    if mode == 2:
+        kb = range(n) if kb else ()
+    if op in ('add', 'sub'):
+        return sorted(set(ka) | set(kb))
+    if op == 'mul':
+        return sorted(set(ka) & set(kb))
+    return sorted(set(ka))   # truediv: numerator positions
+
+
+def _result(op, n, mode, ga, ka, gb, kb):
+    new = LazyDct()
+    fa = (lambda k: ga(0)) if mode == 1 else ga
+    fb = (lambda k: gb(0)) if mode == 2 else gb
+    for k in _keys_for(op, n, mode, ka, kb):
+        a = fa(k)
+        b = fb(k)
+        if op == 'truediv':
+            if not is_sym(a) and a == 0:
+                continue
+            nz = bool(b)            # decided first: a/b needs b != 0 whatever a is
+            if not nz:
+                if bool(a): raise ZeroDivisionError('division by zero')
+                continue            # 0/0 position: the entry is absent in the sparse operand, nothing is divided
+        new.put(k, _apply(op, a, b))
+    return new
+
+
+def _mk_sparse(op, inplace):
+    def kernel(self, other):
+        n, mode = _broadcast(self, other.size)
+        ga, ka, da = _getter(self)
+        gb, kb, db = _getter(other)
+        new = _result(op, n, mode, ga, ka, gb, kb)
+        if inplace:
+            return _store(self, new, n)
+        return SparseVector.from_dict(new, n)
+    kernel.__name__ = f"_{'i' if inplace else ''}{op}_sparse"
+    return kernel
+
+
+def _mk_array(op, inplace):
+    def kernel(self, other):
+        other_size = len(other)
+        n, mode = _broadcast(self, other_size, other_is_sparse=False)
+        ga, ka, da = _getter(self)
+        vals = [sxfloat(other[i]) for i in range(other_size)]
+        gb = lambda k: vals[k]
+        kb = [i for i, v in enumerate(vals) if is_sym(v) or v != 0]
+        new = _result(op, n, mode, ga, ka, gb, kb)
+        if inplace:
+            return _store(self, new, n)
+        return SparseVector.from_dict(new, n)
+    kernel.__name__ = f"_{'i' if inplace else ''}{op}_array"
+    return kernel
+
+
+def _mk_scalar(op, inplace):
+    def kernel(self, other):
+        n = self.size
+        ga, ka, da = _getter(self)
+        other = sxfloat(other)
+        gb = lambda k: other
+        kb = range(n) if (is_sym(other) or other != 0) else ()
+        new = _result(op, n, 0, ga, ka, gb, kb)
+        if inplace:
+            return _store(self, new, n)
+        return SparseVector.from_dict(new, n)
+    kernel.__name__ = f"_{'i' if inplace else ''}{op}_scalar"
+    return kernel
+
+
+def _store(self, new, n):
+    d = _lazy(self)
+    if d is None:
+        raise EngineUnsupported('in-place kernel on a dictionary view at contract level')
+    d.clear()
+    for k in new.candidates():
+        d.put(k, new.peek(k))
+    d._known |= new._known
+    self.size = n
+    return self
+
+
+def _neg(self):
+    g, ks, d = _getter(self)
+    new = LazyDct()
+    for k in ks:
+        new.put(k, -g(k))
+    if d is not None:
+        new._known = set(d._known)
+    return SparseVector.from_dict(new, self.size)
+
+
+def _copy(self):
+    d = _lazy(self)
+    if d is None:
+        return SparseVector.from_dict(self.dct.copy(), self.size)
+    return SparseVector.from_dict(LazyDct(d), self.size)
+
+
+def _copy_like(self, other):
+    d = _lazy(self)
+    if d is None:
+        raise EngineUnsupported('copy_like on a dictionary view at contract level')
+    if self.dct is other.dct: return
+    go, ko, do = _getter(other)
+    d.clear()
+    for k in ko:
+        d.put(k, go(k))
+    if do is not None:
+        d._known |= do._known
+    else:
+        d._known |= set(ko)
+
+
+def _mix_from(self, others):
+    d = _lazy(self)
+    if d is None:
+        raise EngineUnsupported('mix_from on a dictionary view at contract level')
+    getters = [_getter(o) if o.dct is not d else (LazyDct(d).peek, d.candidates(), None) for o in others]
+    keys = sorted({k for _, ks, _ in getters for k in ks})
+    new = {}
+    for k in keys:
+        x = 0.
+        for g, _, _ in getters:
+            x = x + g(k)
+        new[k] = x
+    d.clear()
+    for k, x in new.items():
+        d.put(k, x)
+
+
+def _sum(self, axis=None, keepdims=False):
+    if axis: raise ValueError('axis is out of bounds for 1-d sparse array')
+    g, ks, d = _getter(self)
+    arr = 0.
+    for k in ks: arr = arr + g(k)
+    if keepdims:
+        new = LazyDct(); new.put(0, arr)
+        arr = SparseVector.from_dict(new, 1)
+    return arr
+
+
+def _to_array(self, dtype=None):
+    from .shim import np_shim
+    arr = np_shim.zeros(self.size, dtype=dtype or self.dtype)
+    g, ks, d = _getter(self)
+    for k in ks: arr[k] = g(k)
+    return arr
+
+
+def _tolist(self):
+    g, ks, d = _getter(self)
+    return [g(i) for i in range(self.size)]
+
+
+def _iter(self):
+    g, ks, d = _getter(self)
+    for i in range(self.size):
+        yield g(i)
+
+
+def _sum_of(self, index):
+    g, ks, d = _getter(self)
+    if hasattr(index, '__iter__'):
+        x = 0.
+        for i in index: x = x + g(i)
+        return x
+    return g(index)
+
+
+def _has_negatives(self):
+    g, ks, d = _getter(self)
+    for k in ks:
+        if g(k) < 0.: return True
+    return False
+
+
+def _sum_sparse_vectors(svs):
+    if svs: dtype = svs[0].dtype
+    else: return {}
+    if dtype is bool:
+        return _real['sum_sparse_vectors'](svs)
+    getters = [_getter(o) for o in svs]
+    keys = sorted({k for _, ks, _ in getters for k in ks})
+    new = LazyDct()
+    for k in keys:
+        x = 0.
+        for g, _, _ in getters: x = x + g(k)
+        new.put(k, x)
+    return new
+
+
+SparseVector = None
+sxfloat = None
+_slot_set = None
+_real = {}
+_installed = None
+
+
+def install():
+    """Rebind the SparseVector kernels to their contract level (this process only)."""
+    global SparseVector, sxfloat, _slot_set, _installed
+    if _installed is not None:
+        return _installed
+    from . import shim
+    sxfloat = shim.sxfloat
+    sp = sys.modules['thermosteam.base.sparse']
+    SparseVector = sp.SparseVector
+    slot = SparseVector.__dict__['dct']
+    _slot_set = slot.__set__
+
+    def _get(self):
+        return slot.__get__(self)
+
+    def _set(self, v):
+        if v.__class__ is dict:
+            v = LazyDct(v)
+        slot.__set__(self, v)
+    SparseVector.dct = property(_get, _set)
+    names = []
+    for op in ('add', 'sub', 'mul', 'truediv'):
+        for kind, mk in (('sparse', _mk_sparse), ('array', _mk_array), ('scalar', _mk_scalar)):
+            for inplace in (False, True):
+                k = mk(op, inplace)
+                setattr(SparseVector, k.__name__, k)
+                names.append('SparseVector.' + k.__name__)
+    for nm, f in (('__neg__', _neg), ('copy', _copy), ('copy_like', _copy_like), ('mix_from', _mix_from),
+                  ('sum', _sum), ('to_array', _to_array), ('astype', _to_array), ('tolist', _tolist), ('to_list', _tolist),
+                  ('__iter__', _iter), ('sum_of', _sum_of), ('has_negatives', _has_negatives)):
+        setattr(SparseVector, nm, f)
+        names.append('SparseVector.' + nm)
+    _real['sum_sparse_vectors'] = sp.sum_sparse_vectors
+    sp.sum_sparse_vectors = _sum_sparse_vectors
+    names.append('sum_sparse_vectors')
+
+    # SparseVector.__init__ keeps filling the plain dict it just assigned: give it the contract level too
+    real_init = SparseVector.__init__
+
+    def _init(self, obj=None, size=None):
+        if obj is not None and not isinstance(obj, (dict, SparseVector)) and hasattr(obj, '__iter__'):
+            self.read_only = False
+            d = LazyDct()
+            n = 0
+            for i, j in enumerate(obj):
+                n = i + 1
+                d.put(i, sxfloat(j))
+            self.dct = d
+            self.size = (len(obj) if hasattr(obj, '__len__') else n) if size is None else size
+        else:
+            real_init(self, obj, size)
+    SparseVector.__init__ = _init
+    names.append('SparseVector.__init__ (iterable branch)')
+    _installed = ['L0 contract level: ' + ', '.join(names) + '; SparseVector.dct -> LazyDct']
+    return _installed
+
+
+def install_if_requested(flag=False):
+    if flag or os.environ.get('VERIF_L0') == 'contract':
+        return install()
     return []
